@@ -541,13 +541,24 @@ def run_check(spec, tier, seed):
         except Exception as e:       # a crash of the oracle machinery is a broken check, not a pass
             broken.append(('oracle-machinery', repr(e)))
     known = load_known_findings()
-    known_open = [k for k in known.get('open', []) if k.get('property') == pid]
+    known_open = [k for k in known.get('open', []) if k.get('property') == pid or pid in k.get('correspondence_scope', [])]
 
-    def is_known(c, it, why):
+    def is_known(c, it, why, corr=False):
         for k in known_open:
-            pat = k.get('match', {})
+            pat = dict(k.get('match', {}))
+            if corr:
+                # a model/implementation difference inside the regime of a finding that says so
+                if not k.get('covers_correspondence'):
+                    continue
+                pat.pop('why_regex', None)
+            elif k.get('property') != pid:
+                continue
             if 'cfg_regex' in pat and not re.search(pat['cfg_regex'], c['cfg']):
                 continue
+            if 'cfg_pred' in pat:
+                import findings_pred
+                if not findings_pred.PREDICATES[pat['cfg_pred']](c['cfg']):
+                    continue
             if 'why_regex' in pat and not re.search(pat['why_regex'], why or ''):
                 continue
             if 'trace_regex' in pat and not any(re.search(pat['trace_regex'], l) for l in (it or [])):
@@ -577,8 +588,15 @@ def run_check(spec, tier, seed):
                              case_text(c2, it, mt, 'property oracle: ' + why))
             lines.append('VIOLATION property=%s replay=%s' % (pid, p))
     # 2. correspondence mismatches
-    if not violations and mismatches:
-        c, it, mt = mismatches[0]
+    unknown_mm = []
+    for (c, it, mt) in mismatches:
+        k = is_known(c, it, None, corr=True)
+        if k:
+            seen_known.add(k['class'])
+        else:
+            unknown_mm.append((c, it, mt))
+    if not violations and unknown_mm:
+        c, it, mt = unknown_mm[0]
         try:
             sub = c.get('sub', spec.get('sub', 'lsim'))
             c = shrink_case(sub, c, lambda cc, i2, m2: i2 is not None and not (i2 and i2[0].startswith('PARSE-')) and not spec.get('compare', same_trace)(i2, m2))
@@ -589,7 +607,7 @@ def run_check(spec, tier, seed):
         why = None
         if spec.get('oracle'):
             why = spec['oracle'](c, it)
-        k = is_known(c, it, why or 'correspondence')
+        k = is_known(c, it, why or 'correspondence') or is_known(c, it, None, corr=True)
         if k:
             seen_known.add(k['class'])
         else:
